@@ -150,6 +150,15 @@ func (eci *ECInstance) validateDecision(decision *gpbft.Justification) error {
 	if justificationPower.LessThan(strongQuorum) {
 		return fmt.Errorf("decision lacks strong quorum: %v", decision)
 	}
+	// The threshold above is derived from zero power and never rejects anything: check the
+	// signers against the instance's scaled power table, like every other validator does.
+	var signersScaledPower int64
+	for _, signer := range signers {
+		signersScaledPower += powerTable.ScaledPower[signer]
+	}
+	if !gpbft.IsStrongQuorum(signersScaledPower, powerTable.ScaledTotal) {
+		return fmt.Errorf("decision lacks strong quorum: %v", decision)
+	}
 	// Verify aggregate signature
 	payload := eci.ec.verifier.MarshalPayloadForSigning(eci.ec.networkName, &decision.Vote)
 
